@@ -113,6 +113,13 @@ where
 {
     let report_pairs = group_report_pairs_ordered(reports);
 
+    // No match key occurs in exactly two reports: nothing to attribute. All helpers see the
+    // same (revealed) pseudonyms, so they take this branch together; `breakdown_reveal_aggregation`
+    // turns the empty list into an all-zero histogram.
+    if report_pairs.is_empty() {
+        return Ok(Vec::new());
+    }
+
     let chunk_size =
         non_zero_prev_power_of_two(TARGET_PROOF_SIZE / (BK::BITS as usize + V::BITS as usize));
 
